@@ -145,6 +145,72 @@ def run(chk):
             chk.violate({"kind": "property", "case": lib.show_case(("debsigseq", [b"<%d bytes>" % len(c[1][0])] + c[1][1:])), "impl": got, "expected": want,
                          "explanation": "a check made after other checks on the same loaded package gives another outcome than the same check on a fresh load "
                                         "(expected = fresh-load outcomes, each judged against the signature oracle above)"})
+    # LIFETIME HISTORIES over several signed packages: load (from memory or from a file), observe the payload, check the
+    # signature, close (once or twice, through Deb.Close or the function LoadFile returned), load again ... in any
+    # order, several packages alive at once.  Every observation must be the package's own content and every check must
+    # be the fresh-load outcome: verification covers the content the loader exposes for THAT package, whatever
+    # happened to other handles before.
+    signedp = []
+    for denc in (".zst", ".zst", ".zst", ".gz", ".xz", ""):
+        key = rng.randrange(2); role = rng.choice(roles)
+        buf, info = debpkg.build(chk, rng, rng.choice(["", ".gz", ".zst"]), denc)
+        ms = info["ms"]
+        sig = bytes.fromhex(chk.run_impl([("sigmake", [str(key).encode(), ms[0]["data"] + ms[1]["data"] + ms[2]["data"]])])[0][1:])
+        signedp.append((argen.render(ms + [debpkg.member(b"_gpg" + role, sig)]), role, key))
+    single_o = chk.run_impl([("debload", [b]) for b, _, _ in signedp])
+    single_s = chk.run_impl([("debsigseq", [b, r, str(k).encode()]) for b, r, k in signedp])
+    def rand_script(npk):
+        state = {i: "new" for i in range(npk)}      # new | open | seen (payload read) | closed
+        toks, want = [], []
+        for _ in range(rng.randrange(4, 14)):
+            i = rng.randrange(npk)
+            st = state[i]
+            if st in ("new", "closed"):
+                toks.append(rng.choice("LF") + str(i)); state[i] = "open"
+            else:
+                act = rng.choice(["O", "S", "C", "X", "CC", "XC", "S"])
+                if act == "O" and st == "open":
+                    toks.append("O%d" % i); want.append("( " + single_o[i] + " )"); state[i] = "seen"
+                elif act == "S":
+                    b, r, k = signedp[i]
+                    toks.append("S%d:%s:%d" % (i, r.decode(), k)); want.append(single_s[i].strip("[] "))
+                elif act in ("C", "X", "CC", "XC"):
+                    for ch in act:
+                        toks.append(ch + str(i))
+                    state[i] = "closed"
+        # in the end every package still open is observed (content read only now, after everything else happened)
+        for i in range(npk):
+            if state[i] == "open":
+                toks.append("O%d" % i); want.append("( " + single_o[i] + " )")
+        return " ".join(toks), want
+    hc, hw = [], []
+    fixed = ["F0 X0 C0 L1 L2 O1 O2", "F0 X0 C0 F1 F2 S1:%s:%d O2 O1" % (signedp[1][1].decode(), signedp[1][2]), "L0 C0 C0 L1 L2 O2 O1", "F0 O0 X0 X0 F1 O1 X1 L2 O2",
+             "L0 L1 L2 C1 O0 O2", "F0 F1 X0 C0 F0 F2 O1 O0 O2"]
+    for sc in fixed:
+        want = []
+        for t in sc.split():
+            if t[0] == "O":
+                want.append("( " + single_o[int(t[1:])] + " )")
+            elif t[0] == "S":
+                want.append(single_s[int(t[1:].split(":")[0])].strip("[] "))
+        hc.append(("debhist", [sc.encode()] + [b for b, _, _ in signedp[:3]])); hw.append(want)
+    for _ in range(chk.n(60, 1200)):
+        pk = rng.sample(range(len(signedp)), 3)
+        trio = [signedp[i] for i in pk]
+        saved = (signedp, single_o, single_s)
+        signedp_, single_o_, single_s_ = trio, [single_o[i] for i in pk], [single_s[i] for i in pk]
+        signedp, single_o, single_s = signedp_, single_o_, single_s_
+        sc, want = rand_script(3)
+        signedp, single_o, single_s = saved
+        hc.append(("debhist", [sc.encode()] + [b for b, _, _ in trio])); hw.append(want)
+    hi = chk.run_impl(hc)
+    chk.record("lifetime-histories", hc, hi, lambda c, r: r.startswith("["))
+    for c, got, want in zip(hc, hi, hw):
+        w = "[ " + " ".join(want) + " ]" if want else "[]"
+        if got != w:
+            chk.violate({"kind": "property", "case": lib.show_case(("debhist", [c[1][0]] + [b"<%d bytes>" % len(x) for x in c[1][1:]])), "impl": got[:1200], "expected": w[:1200],
+                         "explanation": "in a history of loads, checks and closes over several packages, a package exposed content that is not its own or a check "
+                                        "gave another outcome than on a fresh load (the signature then does not cover the content that was exposed)"})
     chk.extra["stream_sizes"] = counts
     chk.extra["verified_ok"] = ok
     chk.trusted.append("signature oracle: openpgp.CheckDetachedSignature called directly (op sigoracle); signatures made with openpgp.DetachSign")
